@@ -811,6 +811,9 @@ bool BW_MidiSequencer::buildSmfTrackData(const std::vector<std::vector<uint8_t> 
                 if (!m_trackData[tk].empty())
                 {
                     MidiTrackRow &previous = m_trackData[tk].back();
+                    // The skipped silence takes no ticks either: where the tempo changes
+                    // the time line is computed from the tick positions of the rows
+                    abs_position -= previous.delay;
                     previous.delay = 0;
                     previous.timeDelay = 0;
                 }
